@@ -303,6 +303,13 @@ Definition groups_ok (rl : list (option Z * Z)) (gs : list group) : bool :=
   list_eqb (pair_eqb (opt_eqb Z.eqb) Z.eqb) (expand_groups gs) rl
   && forallb (fun g : group => is_none (fst g) || (Nat.eqb (length (snd g)) 1)) gs.
 
+(* What LayerRenderer hands to the merger for a rendered group: merger.add(img, layer.coverage).  For a LimitedLayer
+   that is the coverage made by load_limited_to, GeomCoverage(..., clip=True) - it shadows a coverage of the wrapped
+   source -, for a plain source its own coverage with its own clip flag.  Checked on the observed merger layers:
+   a limited layer always arrives with a clipping coverage. *)
+Definition limited_layers_clip (l : list (option Z * bool)) : bool :=
+  forallb (fun lc : option Z * bool => match fst lc with Some _ => snd lc | None => true end) l.
+
 (* WMSServer.featureinfo: qlayers = QUERY_LAYERS, layers = LAYERS (filter_actual_layers is called with
    request.params.layers); pt_in g = coverage g contains the query coordinate.  The result lists the
    info sources whose get_info reaches the wrapped layer. *)
